@@ -67,6 +67,8 @@ def run(ctx):
         sub = cases if mode == "static" else cases[::3]
         res = drv.run_grouped(exe, sub, par=max(1, vf.NCPU // 3)) if env is None else \
             [drv.run_batch(exe, [c], env=env)[0] for c in sub]
+        if mode == "static":
+            static_res = res
         bb, nb = drv.check_bumps(adrv, res)
         nbump += nb
         for k, msg in bb.items():
@@ -157,6 +159,50 @@ def run(ctx):
             else:
                 nab += 1
     ctx.cov["correspondence"]["abort_path_runs"] = nab
+    # ---- estimates that are too small by a FEW entries, several workers, delays while the allocator lock is held:
+    # the run must stop with the diagnostic; if it returns, the bump model (which aborts) disagrees with the blocks handed out
+    tight = []
+    for c, r in zip(cases, static_res):
+        if c["nprocs"] < 2 or not r.get("hooks") or r.get("crash") is not None or c["ienv"][1] > c["ienv"][2]:
+            continue
+        for which, pos, lg in (("UCOL", 6, r.get("bump_u") or []), ("LSUB", 7, r.get("bump_l") or [])):
+            need = max([e[0] + e[1] for e in lg] + [0])
+            if need >= 4:
+                # a few entries short (the last requests cross the limit) or far too small (the limit is crossed while
+                # several workers allocate concurrently)
+                ie = list(c["ienv"]); ie[pos] = max(1, need - rng.choice([1, 2, 3]) if rng.random() < 0.3 else int(need * rng.uniform(0.2, 0.9)))
+                tight.append(dict(c, ienv=ie, trace=0, dumplu=0, id=20000 + len(tight), nprocs=rng.choice([3, 4, 8]),
+                                  perturb=[rng.randint(1, 10 ** 6), 0.6, 300], which=which, need=need))
+        if len(tight) >= (40 if ctx.quick() else 400):
+            break
+    tres = drv.run_grouped(exe, tight, par=max(1, vf.NCPU // 3), chunk=1)
+    bb, nb = drv.check_bumps(adrv, tres)
+    ntight = 0; nlogged = 0
+    for k, (c, r) in enumerate(zip(tight, tres)):
+        msg = r.get("stderr") or ""
+        lim = c["ienv"][6 if c["which"] == "UCOL" else 7]
+        alog = r.get("abort_bump_u" if c["which"] == "UCOL" else "abort_bump_l") or []
+        over = [e for e in alog if e[0] + e[1] > lim]
+        if r.get("crash") is not None and ("exceeded" in msg or "Storage for" in msg) and over:
+            ctx.violation("C05: %s estimate %d too small: before the diagnostic the allocator handed out the block [%d,%d) beyond the "
+                          "array (the bump model aborts at that request)" % (c["which"], lim, over[0][0], over[0][0] + over[0][1]),
+                          {"case": c, "log": alog[-6:]}, key={"kind": "tight_estimate_overrun", "which": c["which"]})
+        elif r.get("crash") is not None and ("exceeded" in msg or "Storage for" in msg):
+            ntight += 1
+            nlogged += 1 if alog else 0
+        elif r.get("crash") is not None or r.get("timeout"):
+            ctx.violation("C05: too small %s estimate (%d < %d needed): run failed without the diagnostic: %s" % (c["which"], c["ienv"][6 if c["which"] == "UCOL" else 7], c["need"], msg[-300:]),
+                          {"case": c}, key={"kind": "tight_estimate_crash", "which": c["which"]})
+        else:
+            used = max([e[0] + e[1] for e in (r.get("bump_u") if c["which"] == "UCOL" else r.get("bump_l")) or []] + [0])
+            lim = c["ienv"][6 if c["which"] == "UCOL" else 7]
+            if used > lim or k in bb:
+                ctx.violation("C05: %s estimate %d too small but the run returned info %s having handed out entries up to %d: %s" %
+                              (c["which"], lim, r.get("info"), used, bb.get(k, "")), {"case": c}, key={"kind": "tight_estimate_overrun", "which": c["which"]})
+            else:
+                ntight += 1      # another schedule / pivot sequence needed less: fine
+    ctx.cov["correspondence"]["tight_estimate_runs"] = ntight
+    ctx.cov["correspondence"]["tight_estimate_aborts_with_allocation_log_within_bounds"] = nlogged
     ctx.sample({k: cases[0][k] for k in ("kind", "n", "nprocs", "colperm", "ienv", "thresh")})
     ctx.log("images compared %d, slot-monitored runs %d, asan clean %d, abort path %d" % (nmap, nslot, nasan, nab))
     ctx.cov["partial"] += ["colcnt_dominates: George-Ng bound / qrnzcnt not modelled; monitored by the per-allocation slot check",
